@@ -392,7 +392,8 @@ OnDone(s, e) ==
     IF s.cur.etype # "rec" THEN s
     ELSE IF s.phase # "exited" THEN Flag(s, {"CONF"}, "done before the root returned")
     ELSE IF e.ok # s.rootexit.ok \/ (e.ok /\ e.val # s.rootexit.val) \/ (~e.ok /\ ~SameBag(e.ids, s.rootexit.ids))
-         THEN Flag(s, {"CONF"}, "deserialize returns something else than the root impl returned")
+         \* deserr::deserialize itself stands between the root impl and the caller
+         THEN Flag(s, {"C01"} \cup ExitProps(Nodes[s.cur.ty]), "deserialize returns something else than the root impl returned")
     ELSE IF e.ok /\ s.made # {} THEN Flag(s, {"C01"}, "deserialize returns Ok although the error type was asked to record something")
     ELSE IF ~e.ok /\ ~SameBag(e.ids, SetAsSeq(s.made)) THEN Flag(s, {"C01"}, "the final error is not made of exactly the reports of the call")
     ELSE
